@@ -1,7 +1,8 @@
 /* Correspondence driver, engine "read" (C12): kdump_read() / kdump_read_string()
  * through the public API on synthetic dump files.
  *
- *   case line:  <mode> <path> <item> <item> ...
+ *   case line:  <mode>[x] <path> <item> <item> ...     (x: set addrxlat.ostype=linux and
+ *                                                        forced virt_bits/phys_base first)
  *   mode P (probe), items <as>:<first page addr>:<npages>:<page size>
  *        one full-page kdump_read() per page; output per page "<as>:<addr>:<status>:<hex or ->"
  *   mode R (read), items <as>:<addr>:<len>          (one context, reads in order)
@@ -104,6 +105,21 @@ int main(int argc, char **argv)
 		if (st != KDUMP_OK) {
 			printf("OPEN-FAILED %d %s\n", (int)st, kdump_get_err(ctx));
 			kdump_free(ctx); close(fd); continue;
+		}
+		if (mode[1] == 'x') {
+			/* enough for the Linux/x86-64 translation system to come up without a
+			 * VMCOREINFO: KPHYSADDR <-> MACHPHYSADDR and the kernel direct mapping */
+			kdump_attr_t a;
+			a.type = KDUMP_STRING; a.val.string = "linux";
+			st = kdump_set_attr(ctx, "addrxlat.ostype", &a);
+			a.type = KDUMP_NUMBER; a.val.number = 48;
+			if (st == KDUMP_OK) st = kdump_set_attr(ctx, "addrxlat.force.virt_bits", &a);
+			a.type = KDUMP_ADDRESS; a.val.address = 0;
+			if (st == KDUMP_OK) st = kdump_set_attr(ctx, "addrxlat.force.phys_base", &a);
+			if (st != KDUMP_OK) {
+				printf("XLAT-SETUP-FAILED %d %s\n", (int)st, kdump_get_err(ctx));
+				kdump_free(ctx); close(fd); continue;
+			}
 		}
 		for (tok = strtok_r(NULL, " ", &save); tok; tok = strtok_r(NULL, " ", &save)) {
 			char *s2 = NULL;
